@@ -285,19 +285,38 @@ theorem new_pi_multiple (m : ℕ) (hm : m = 0 ∨ ∃ j ≤ 8, m = 2 ^ j) :
     have : (1024:ℝ) ≤ 2 ^ 60 := by norm_num
     linarith)
   rw [hvm, val_one, div_one, rnd_rep hrep] at hvd
-  have hnl : flt (fdiv (fmul (FloatLike.ofNat m : F) pi) one) zero = false := by
+  -- the raw total is `m·π` whichever order of operations the normal-range test selects
+  obtain ⟨hfr, hvr⟩ : Fin (newRawTotal (FloatLike.ofNat m : F) one) ∧
+      val (newRawTotal (FloatLike.ofNat m : F) one) = (m : ℝ) * piV F := by
+    unfold newRawTotal
+    simp only
+    by_cases hnorm : FloatLike.isNormal (fmul (FloatLike.ofNat m : F) pi) = true
+    · rw [if_pos hnorm]; exact ⟨hfd, hvd⟩
+    · rw [if_neg hnorm]
+      obtain ⟨hf1, hv1⟩ := fdiv_spec hf (fin_one (F := F)) (by rw [val_one]; norm_num) (by
+        rw [hv, val_one, div_one]; apply inRange_of_abs_le_2p60; rw [abs_of_nonneg (by positivity)]
+        have : (256:ℝ) ≤ 2 ^ 60 := by norm_num
+        linarith)
+      rw [hv, val_one, div_one, rnd_rep (rep_nat hm53)] at hv1
+      obtain ⟨hf2, hv2⟩ := fmul_spec hf1 (fin_pi (F := F)) (by
+        rw [hv1, val_pi]; apply inRange_of_abs_le_2p60; rw [abs_of_nonneg hmp0]
+        have : (1024:ℝ) ≤ 2 ^ 60 := by norm_num
+        linarith)
+      rw [hv1, val_pi, rnd_rep hrep] at hv2
+      exact ⟨hf2, hv2⟩
+  have hnl : flt (newRawTotal (FloatLike.ofNat m : F) one) zero = false := by
     rw [Bool.eq_false_iff]; intro h
-    rw [flt_spec hfd fin_zero, hvd, val_zero] at h; linarith
-  have hnt : newTotal (FloatLike.ofNat m : F) one = fdiv (fmul (FloatLike.ofNat m : F) pi) one := by
+    rw [flt_spec hfr fin_zero, hvr, val_zero] at h; linarith
+  have hnt : newTotal (FloatLike.ofNat m : F) one = newRawTotal (FloatLike.ofNat m : F) one := by
     unfold newTotal; simp [hnl]
-  have hcore := newCore_spec (newTotal (FloatLike.ofNat m : F) one) (by rw [hnt]; exact hfd)
-    (by rw [hnt, hvd]; exact hmp0)
-    (by rw [hnt, hvd]
+  have hcore := newCore_spec (newTotal (FloatLike.ofNat m : F) one) (by rw [hnt]; exact hfr)
+    (by rw [hnt, hvr]; exact hmp0)
+    (by rw [hnt, hvr]
         have : (1024:ℝ) ≤ 2 ^ 48 := by norm_num
         linarith)
   have hq := val_qp (F := F)
   have hquot : val (newTotal (FloatLike.ofNat m : F) one) / val (qp : F) = ((2 * m : ℕ) : ℝ) := by
-    rw [hnt, hvd, hq]; push_cast; field_simp
+    rw [hnt, hvr, hq]; push_cast; field_simp
   have hfl : ⌊val (newTotal (FloatLike.ofNat m : F) one) / val (qp : F)⌋₊ = 2 * m := by
     rw [hquot]; exact Nat.floor_natCast _
   have hnew : Angle.new (FloatLike.ofNat m : F) one =
@@ -313,11 +332,11 @@ theorem new_pi_multiple (m : ℕ) (hm : m = 0 ∨ ∃ j ≤ 8, m = 2 ^ j) :
   rcases hcase with ⟨hb, hT⟩ | ⟨hb, _, hT⟩
   · refine ⟨hb, hinv.1, fin_zero, ?_⟩
     rw [val_zero]
-    rw [hb, hnt, hvd, hq] at hT
+    rw [hb, hnt, hvr, hq] at hT
     push_cast at hT
     linarith
   · exfalso
-    rw [hb, hnt, hvd, hq] at hT
+    rw [hb, hnt, hvr, hq] at hT
     push_cast at hT
     rw [abs_lt] at hT
     have : (1:ℝ) / 10 ^ 9 ≤ 1 := by rw [div_le_one (by positivity)]; norm_num
